@@ -11,6 +11,7 @@ import (
 	"fmt"
 	"io"
 	"strings"
+	"sync"
 	"testing"
 	"testing/synctest"
 	"time"
@@ -275,6 +276,157 @@ func c01IOCase(side, ends, readerCloseErr, writerCloseErr string) (obs, sig, msg
 	return "call failed after termination", "", ""
 }
 
+// c01Coalesce is a byte stream like an OS pipe or a socket: writes never block and are not message
+// boundaries - a Read returns whatever has accumulated, as much as fits.  While hold is set the reading
+// side sees nothing (the bytes are "in flight").
+type c01Coalesce struct {
+	mu     sync.Mutex
+	buf    []byte
+	hold   bool
+	closed bool
+	wake   chan struct{}
+}
+
+func newC01Coalesce() *c01Coalesce { return &c01Coalesce{wake: make(chan struct{}, 1)} }
+
+func (c *c01Coalesce) signal() {
+	select {
+	case c.wake <- struct{}{}:
+	default:
+	}
+}
+
+func (c *c01Coalesce) Write(p []byte) (int, error) {
+	c.mu.Lock()
+	defer c.mu.Unlock()
+	if c.closed {
+		return 0, io.ErrClosedPipe
+	}
+	c.buf = append(c.buf, p...)
+	c.signal()
+	return len(p), nil
+}
+
+func (c *c01Coalesce) Read(p []byte) (int, error) {
+	for {
+		c.mu.Lock()
+		if !c.hold && len(c.buf) > 0 {
+			n := copy(p, c.buf)
+			c.buf = c.buf[n:]
+			c.mu.Unlock()
+			return n, nil
+		}
+		if c.closed {
+			c.mu.Unlock()
+			return 0, io.EOF
+		}
+		c.mu.Unlock()
+		<-c.wake
+	}
+}
+
+func (c *c01Coalesce) Close() error {
+	c.mu.Lock()
+	c.closed = true
+	c.mu.Unlock()
+	c.signal()
+	return nil
+}
+
+func (c *c01Coalesce) setHold(h bool) {
+	c.mu.Lock()
+	c.hold = h
+	c.mu.Unlock()
+	c.signal()
+}
+
+// c01CoalescedCase: client and server over IOTransports on coalescing byte streams.  Two or three calls
+// are outstanding, one of them with a large payload (in its response, or in its request); the bytes of
+// all the messages of one direction pile up and arrive together.  Every call completes with its own result.
+func c01CoalescedCase(dir string, size int, order string) (obs, sig, msg string) {
+	fail := func(s, format string, a ...any) (string, string, string) {
+		return "", "c01 io-coalesced " + s, fmt.Sprintf(format, a...) + fmt.Sprintf(" [large %s of %d bytes, order %s]", dir, size, order)
+	}
+	ctx := context.Background()
+	c2s, s2c := newC01Coalesce(), newC01Coalesce()
+	s := NewServer(&Implementation{Name: "srv", Version: "1"}, &ServerOptions{Logger: quietLogger})
+	AddTool(s, &Tool{Name: "echo"}, func(ctx context.Context, r *CallToolRequest, in struct {
+		Tag string `json:"tag"`
+		Pad string `json:"pad,omitempty"`
+		N   int    `json:"n,omitempty"`
+	}) (*CallToolResult, any, error) {
+		return &CallToolResult{Content: []Content{&TextContent{Text: in.Tag + ":" + fmt.Sprint(len(in.Pad)) + ":" + strings.Repeat("y", in.N)}}}, nil, nil
+	})
+	c := NewClient(&Implementation{Name: "cli", Version: "1"}, &ClientOptions{Logger: quietLogger})
+	ss, err := s.Connect(ctx, &IOTransport{Reader: c2s, Writer: s2c}, nil)
+	if err != nil {
+		return fail("setup", "%v", err)
+	}
+	cs, err := c.Connect(ctx, &IOTransport{Reader: s2c, Writer: c2s}, &ClientSessionOptions{ProtocolVersion: "2025-06-18"})
+	if err != nil {
+		return fail("setup", "%v", err)
+	}
+	defer func() {
+		c2s.Close()
+		s2c.Close()
+		synctest.Wait()
+		cs.Close()
+		ss.Close()
+	}()
+	synctest.Wait()
+	held := s2c
+	if dir == "request" {
+		held = c2s
+	}
+	held.setHold(true)
+	type out struct {
+		done bool
+		text string
+		err  error
+	}
+	outs := make([]*out, len(order))
+	for i, kind := range order {
+		o := &out{}
+		outs[i] = o
+		args := map[string]any{"tag": fmt.Sprint(i)}
+		if kind == 'B' && dir == "request" {
+			args["pad"] = strings.Repeat("x", size)
+		} else if kind == 'B' {
+			args["n"] = size
+		}
+		go func() {
+			r, err := cs.CallTool(ctx, &CallToolParams{Name: "echo", Arguments: args})
+			if err == nil && len(r.Content) == 1 {
+				o.text = r.Content[0].(*TextContent).Text
+			}
+			o.err, o.done = err, true
+		}()
+		synctest.Wait() // the messages enter the stream in this order
+	}
+	held.setHold(false) // everything arrives at once
+	time.Sleep(time.Minute)
+	synctest.Wait()
+	for i, kind := range order {
+		o := outs[i]
+		wantPad, wantN := 0, 0
+		if kind == 'B' && dir == "request" {
+			wantPad = size
+		} else if kind == 'B' {
+			wantN = size
+		}
+		want := fmt.Sprintf("%d:%d:%s", i, wantPad, strings.Repeat("y", wantN))
+		switch {
+		case !o.done:
+			return fail("call-never-completes", "call %d (%c) is still blocked a minute after the bytes of every message of that direction arrived; the session is up", i, kind)
+		case o.err != nil:
+			return fail("call-failed", "call %d (%c) failed although the peer answered: %v", i, kind, o.err)
+		case o.text != want:
+			return fail("wrong-result", "call %d (%c) returned %.40q..., want %.40q...", i, kind, o.text, want)
+		}
+	}
+	return "all calls completed", "", ""
+}
+
 func TestVerifC01AfterClose(t *testing.T) {
 	env := verifx.LoadEnv("C01")
 	res := env.NewResult()
@@ -330,6 +482,32 @@ func TestVerifC01AfterClose(t *testing.T) {
 					}
 					ioc.Record(idx, obs, 2, func() string { return desc })
 				}
+			}
+		}
+	}
+	coal := env.NewCases(res, "api/io-transport-coalesced-stream")
+	for _, dir := range []string{"response", "request"} {
+		for _, size := range []int{70 << 10, 1<<20 + 10, 5 << 19} {
+			for _, order := range []string{"BS", "SB", "BSS", "SBS", "BB"} {
+				idx, mine := coal.Next()
+				if !mine {
+					continue
+				}
+				var obs, sig, msg string
+				desc := fmt.Sprintf("large %s of %d bytes, order %s", dir, size, order)
+				func() {
+					defer func() {
+						if r := recover(); r != nil && sig == "" {
+							sig, msg = "c01 io-coalesced panic-or-leak", fmt.Sprintf("%v [%s]", r, desc)
+						}
+					}()
+					synctest.Test(t, func(t *testing.T) { obs, sig, msg = c01CoalescedCase(dir, size, order) })
+				}()
+				if sig != "" {
+					coal.Violate(idx, sig, msg, 2)
+					continue
+				}
+				coal.Record(idx, obs, 2, func() string { return desc })
 			}
 		}
 	}
